@@ -4,6 +4,7 @@ import (
 	"fmt"
 	"go/ast"
 	"go/constant"
+	"go/token"
 	"go/types"
 	"sort"
 	"strings"
@@ -121,12 +122,36 @@ func (e *Enum) setIsIota() {
 
 // fetchConstComment retrieve the comment, not exposed in go/types
 func fetchConstComment(pa *packages.Package, obj *types.Const) string {
-	node := nodeAt(pa, obj.Pos())
-	spec := node.(*ast.ValueSpec)
+	spec := valueSpecAt(pa, obj.Pos())
 	if spec.Comment == nil {
 		return ""
 	}
 	return strings.TrimSpace(spec.Comment.Text())
+}
+
+// valueSpecAt returns the specification declaring the constant at [pos],
+// which is not its first name in `const A, B E = 1, 2`
+func valueSpecAt(pa *packages.Package, pos token.Pos) (out *ast.ValueSpec) {
+	declFile := pa.Fset.File(pos)
+	for _, file := range pa.Syntax {
+		if pa.Fset.File(file.Pos()) != declFile {
+			continue
+		}
+		ast.Inspect(file, func(n ast.Node) bool {
+			if n == nil || !(n.Pos() <= pos && pos < n.End()) {
+				return false
+			}
+			if spec, ok := n.(*ast.ValueSpec); ok {
+				out = spec
+			}
+			return true
+		})
+		if out == nil {
+			panic("node not found in *ast.File")
+		}
+		return out
+	}
+	panic("missing source file in Package.Syntax " + pa.String())
 }
 
 // fetchPkgEnums walks through all the constants defined by the given package
